@@ -216,3 +216,54 @@ def len_constants(ctx, prog):
            "MAX_LEN_IN_STR=%d" % m)
     seq = scalar(prog, "block_hash::MAX_SEQUENCE_SIZE")
     ctx.ob(R, "MAX_SEQUENCE_SIZE == 3", seq == 3, "value %d" % seq)
+
+
+_REFC = None
+# which constants a property's behaviour rests on (floors = half of what was counted, as for beliefs)
+_COMMON = r"internals::hash::block::|internals::base64::|^MAX_LEN_IN_STR$"
+CONST_SCOPES = {
+    "C01": r"internals::generate::|internals::hash::block::", "C03": r"internals::generate", "C12": r"internals::generate::Generator::", "C13": r"internals::generate::|internals::hash::block::block_size::",
+    "C18": r"internals::generate_easy_std::|internals::generate::Generator::", "C19": r"internals::generate::hashes::",
+    "C02": r"internals::compare::|" + _COMMON, "C10": r"internals::compare::|" + _COMMON, "C17": r"internals::compare::|internals::hash::block::block_hash::",
+    "C20": r"internals::hash::block::block_size::|internals::compare::|internals::hash::block::block_hash::MIN_LCS",
+    "C04": _COMMON, "C05": _COMMON, "C06": r"internals::hash::block::block_hash::", "C07": r"internals::hash_dual::|internals::hash::block::block_hash::",
+    "C11": r"internals::hash_dual::|internals::compare::|" + _COMMON, "C14": None, "C15": r"internals::hash_dual::|internals::hash::block::block_hash::", "C16": r"internals::hash::block::block_hash::",
+}
+
+
+def _const_value(c):
+    import hashlib
+    v = c.get("v")
+    if v is None and c.get("bytes") is not None:
+        v = "bytes:" + hashlib.sha256((str(c.get("ptr_off")) + str(c.get("slice_len")) + c["bytes"]).encode()).hexdigest()[:16]
+    if v is None and c.get("zst"):
+        v = "zst"
+    return v
+
+
+def const_census(ctx, prog, scope=None, floor=10):
+    """every constant the compiler can evaluate (tables, sizes, borders, initial values, masks) keeps the VALUE recorded on the reviewed
+    tree - whatever its initialiser looks like.  Values are read from rustc's const evaluation, so this is form-free; constants that did not
+    exist on the reviewed tree are not judged (generic constants are read as polynomials by SA-SUMMARY)."""
+    global _REFC
+    import json, os, re
+    if _REFC is None:
+        try:
+            with open(os.path.join(os.path.dirname(os.path.dirname(os.path.abspath(__file__))), "ref_consts.json")) as fh:
+                _REFC = json.load(fh)
+        except OSError:
+            _REFC = {}
+    RC = "SA-CONST"
+    ctx.rule(RC, "compile-time constants (tables, sizes, borders, masks, initial values) have the values rustc evaluated on the reviewed tree (byte tables by digest); the spelling of the initialiser is free")
+    rx = re.compile(scope) if scope else None
+    n = 0
+    for path, want in sorted(_REFC.items()):
+        if rx is not None and not rx.search(path):
+            continue
+        c = prog.consts.get(path)
+        if c is None or c.get("generic"):
+            continue
+        n += 1
+        got = _const_value(c)
+        ctx.ob(RC, "constant %s keeps its reviewed value" % re.sub(r"^internals::", "", path), got == want, "value %s%s" % (str(got)[:40], "" if got == want else " (reviewed: %s)" % str(want)[:40]))
+    ctx.floor(RC, n, floor, "evaluated constants%s" % ("" if scope is None else " in scope"))
